@@ -241,6 +241,34 @@ func RunC11(ch *core.Chooser, env *Env) *Outcome {
 		lists[0].Text = b.String()
 		out.Probes["runs_with_offsets_beyond_1MiB"]++
 	}
+	// now and then two lists whose ids and lines run into each other when
+	// written next to each other without a separator: id 1 with "10.0.0.1 h"
+	// against id 11 with "0.0.0.1 h", id 1 with "0.0.0.0 h1" against id 11
+	// with "0.0.0.0 h" (a memo keyed by a careless concatenation of id and
+	// text confuses them)
+	if ch.Intn("c11.idglue", 16) == 15 {
+		a := 1 + ch.Intn("c11.idglue.a", 2)
+		b := a*10 + a
+		for i := range lists {
+			if lists[i].ID == a || lists[i].ID == b {
+				lists[i].ID = 900 + i
+			}
+		}
+		if len(lists) < 2 {
+			lists = append(lists, disk.ListPlan{})
+		}
+		lists[0].ID, lists[1].ID = a, b
+		h := hosts[ch.Intn("c11.idglue.h", len(hosts))]
+		nl := func(t string) string {
+			if t != "" && !strings.HasSuffix(t, "\n") {
+				return t + "\n"
+			}
+			return t
+		}
+		lists[0].Text = nl(lists[0].Text) + fmt.Sprintf("%d0.0.0.1 %s\n0.0.0.0 %s%d\n", a, h, h, a)
+		lists[1].Text = nl(lists[1].Text) + fmt.Sprintf("0.0.0.1 %s\n0.0.0.0 %s\n", h, h)
+		out.Probes["storages_with_ids_and_lines_that_glue_ambiguously"]++
+	}
 	// sometimes two lists (distinct ids) are file lists over ONE path
 	if len(lists) < 4 && ch.Intn("c11.twin", 6) == 5 {
 		tw := lists[0]
